@@ -31,6 +31,12 @@ theorem Res.bind_map {α β γ : Type} (r : Res α) (g : α → β) (k : β → 
 theorem Res.bind_congr {α β : Type} (r : Res α) {k k' : α → Res β} (h : ∀ a, k a = k' a) :
     r.bind k = r.bind k' := by cases r <;> simp [h]
 
+/-- two binds correspond when their first computations and their continuations do -/
+theorem Res.bind_map_congr {α α' β β' : Type} {r : Res α} {r' : Res α'} {h : α' → α} {k : α → Res β}
+    {k' : α' → Res β'} {g : β' → β} (hr : r = r'.map h) (hk : ∀ a, k (h a) = (k' a).map g) :
+    r.bind k = (r'.bind k').map g := by
+  subst hr; cases r' <;> simp [Res.map, hk]
+
 theorem Res.map_eq_ok {α β : Type} {g : α → β} {r : Res α} {b : β} :
     r.map g = .ok b ↔ ∃ a, r = .ok a ∧ g a = b := by cases r <;> simp [Res.map]
 
@@ -127,6 +133,20 @@ theorem parseIsTail_erase (e : PExpr) (ts : List Token) :
   generalize (if (cur ts == TK.not_) = true then ts.tail else ts) = ts'
   cases cur ts' <;> simp [erase]
 
+theorem castType_erase (f : Nat) (ts : List Token) :
+    castType f ts = (castTypeP f ts).map (fun p => (p.1.map (·.name), p.2)) := by
+  unfold castType castTypeP
+  cases hc : TypeP.cur ts <;> simp only [] <;> try rfl
+  by_cases hs : TypeP.lookaheadSimpleType ts = true
+  · simp only [hs, if_true]; rfl
+  · simp only [hs, Bool.false_eq_true, if_false]
+    cases TypeP.parseType f ts with
+    | ok a =>
+      obtain ⟨ty, rest⟩ := a
+      cases ty <;> simp [ofTyIdent, Function.comp_def]
+    | raise => rfl
+    | outOfFuel => rfl
+
 /-! ## the 28 functions -/
 
 structure EraseAt (f : Nat) : Prop where
@@ -158,6 +178,13 @@ structure EraseAt (f : Nat) : Prop where
   idx : ∀ ts, parseIndexSpecifier f ts = (parsePIndexSpecifier f ts).map (fun p => (erIS p.1, p.2))
   lit : ∀ ts, parseLit f ts = (parsePLit f ts).map er
   paren : ∀ ts, parseParenExpr f ts = (parsePParenExpr f ts).map er
+  caseE : ∀ ts, parseCaseExpr f ts = (parsePCaseExpr f ts).map er
+  caseLoop : ∀ ts, caseWhenLoop f ts = (caseWhenLoopP f ts).map (fun p => (eraseW p.1, p.2))
+  caseWhen : ∀ ts, parseCaseWhen f ts = (parsePCaseWhen f ts).map (fun p => ((erase p.1.2.1, erase p.1.2.2), p.2))
+  caseElse : ∀ ts, parseCaseElse f ts = (parsePCaseElse f ts).map er
+  ifE : ∀ ts, parseIfExpr f ts = (parsePIfExpr f ts).map er
+  arr : ∀ ts, parseSimpleArrayLiteral f ts = (parsePSimpleArrayLiteral f ts).map er
+  cast : ∀ ts, parseCastExpr f ts = (parsePCastExpr f ts).map er
 
 theorem erase_zero : EraseAt 0 := by
   constructor <;> intros <;> rfl
@@ -338,6 +365,10 @@ theorem erase_succ {f : Nat} (ih : EraseAt f) : EraseAt (f + 1) where
       | exact parseBytes_erase ts
       | exact parseParam_erase ts
       | exact ih.paren ts
+      | exact ih.caseE ts
+      | exact ih.ifE ts
+      | exact ih.arr ts
+      | exact ih.cast ts
       | exact parseLitIdent_erase ts
   paren := by
     intro ts; simp only [parseParenExpr, parsePParenExpr]
@@ -345,6 +376,67 @@ theorem erase_succ {f : Nat} (ih : EraseAt f) : EraseAt (f + 1) where
     simp only [ih.expr, Res.bind_map, Res.map_bind, er_fst, er_snd]
     apply Res.bind_congr; intro p
     cases hc : cur p.2 <;> simp [erase]
+  caseE := by
+    intro ts; simp only [parseCaseExpr, parsePCaseExpr]
+    ifcases cur ts = .case_
+    refine Res.bind_map_congr (h := fun p => (eraseO p.1, p.2)) ?_ fun o => ?_
+    · ifcases cur ts.tail = .when_
+      exact Res.bind_map_congr (ih.expr _) fun p => rfl
+    · refine Res.bind_map_congr (ih.caseWhen _) fun w => ?_
+      refine Res.bind_map_congr (ih.caseLoop _) fun ws => ?_
+      refine Res.bind_map_congr (h := fun p => (eraseO p.1, p.2)) ?_ fun el => ?_
+      · dsimp only
+        ifcases cur ws.2 = .else_
+        exact Res.bind_map_congr (ih.caseElse _) fun p => rfl
+      · dsimp only
+        ifcases cur el.2 = .end_
+  caseLoop := by
+    intro ts; simp only [caseWhenLoop, caseWhenLoopP]
+    cases hc : cur ts <;> simp only [] <;> try rfl
+    refine Res.bind_map_congr (ih.caseWhen _) fun w => ?_
+    exact Res.bind_map_congr (ih.caseLoop _) fun q => rfl
+  caseWhen := by
+    intro ts; simp only [parseCaseWhen, parsePCaseWhen]
+    ifcases cur ts = .when_
+    refine Res.bind_map_congr (ih.expr _) fun c => ?_
+    dsimp only [er_snd]
+    ifcases cur c.2 = .then_
+    exact Res.bind_map_congr (ih.expr _) fun t => rfl
+  caseElse := by
+    intro ts; simp only [parseCaseElse, parsePCaseElse]
+    ifcases cur ts = .else_
+    exact ih.expr _
+  ifE := by
+    intro ts; simp only [parseIfExpr, parsePIfExpr]
+    ifcases cur ts = .if_
+    ifcases cur ts.tail = .lparen
+    refine Res.bind_map_congr (ih.expr _) fun c => ?_
+    dsimp only [er_snd]
+    ifcases cur c.2 = .comma
+    refine Res.bind_map_congr (ih.expr _) fun t => ?_
+    dsimp only [er_snd]
+    ifcases cur t.2 = .comma
+    refine Res.bind_map_congr (ih.expr _) fun e => ?_
+    dsimp only [er_snd]
+    ifcases cur e.2 = .rparen
+  cast := by
+    intro ts; simp only [parseCastExpr, parsePCastExpr]
+    ifcases cur ts = .cast
+    ifcases cur ts.tail = .lparen
+    refine Res.bind_map_congr (ih.expr _) fun p => ?_
+    dsimp only [er_snd]
+    ifcases cur p.2 = .as_
+    refine Res.bind_map_congr (castType_erase _ _) fun t => ?_
+    dsimp only
+    ifcases cur t.2 = .rparen
+  arr := by
+    intro ts; simp only [parseSimpleArrayLiteral, parsePSimpleArrayLiteral]
+    ifcases cur ts = .lbrack
+    ifcases cur ts.tail = .rbrack
+    refine Res.bind_map_congr (ih.expr _) fun p => ?_
+    refine Res.bind_map_congr (ih.inList _) fun q => ?_
+    dsimp only [er_snd]
+    ifcases cur q.2 = .rbrack
 
 theorem erase_all : ∀ f, EraseAt f
   | 0 => erase_zero
